@@ -168,8 +168,7 @@ func checkRest(env *chainkit.Env, bc *core.BlockChain, db aquadb.Database, t *ch
 	return fails
 }
 
-func runHistory(env *chainkit.Env, t *chaintree.Tree, txs map[common.Hash][]txLoc, h history) outcome {
-	var o outcome
+func runHistory(env *chainkit.Env, t *chaintree.Tree, txs map[common.Hash][]txLoc, h history) (o outcome) {
 	db := env.NewChainDB()
 	vrand.SetScript(h.Coins)
 	bc, err := env.Open(db, chainkit.Archive(), chainkit.FullFaker())
@@ -185,6 +184,11 @@ func runHistory(env *chainkit.Env, t *chaintree.Tree, txs map[common.Hash][]txLo
 		}
 	}
 	rewound := false
+	defer func() {
+		if x := recover(); x != nil {
+			o.fails = append(o.fails, fmt.Sprintf("operation panicked (%s): %v", o.trace, x))
+		}
+	}()
 	for oi, op := range h.Ops {
 		switch {
 		case op.SetHead != nil:
@@ -409,7 +413,7 @@ outer:
 }
 
 func oracleOf(msg string) string {
-	for _, k := range []string{"stale canonical entry", "above the head", "maps to", "not retrievable", "lookup does not resolve", "lookup points at", "in no canonical block", "rejected valid", "not a block of the tree", "SetHead("} {
+	for _, k := range []string{"operation panicked", "stale canonical entry", "above the head", "maps to", "not retrievable", "lookup does not resolve", "lookup points at", "in no canonical block", "rejected valid", "not a block of the tree", "SetHead("} {
 		if strings.Contains(msg, k) {
 			return strings.ReplaceAll(strings.Trim(k, "("), " ", "-")
 		}
